@@ -321,3 +321,81 @@ def mol_diff(m, i):
             if (a is None) != (b is None) or (a is not None and not num_close(a, b)):
                 d.append(f"mixture value {a} vs {b}")
     return d
+
+
+# --------------------------------------------------------------------------------------------
+# system layer (Model/SystemM.v)
+def system_line(text, smw=None):
+    from fractions import Fraction
+    q = "N" if smw is None else (lambda f: f"{f.numerator}/{f.denominator}")(Fraction(float(smw)))
+    return "\t".join(["system", fw.hx(text), ",".join(fw.hx(v) for v in valid_bracket_atoms(text)), q])
+
+
+def parse_model_system(line):
+    if line.startswith("ERR "):
+        return ("ERR", line[4:])
+    if not line.startswith("OK "):
+        return ("BAD", line)
+    d = dict(p.split("=", 1) for p in line[3:].split(" "))
+    mols = [parse_model_mol("OK " + fw.unhx(h)) for h in d["mols"].split("/")] if d["mols"] else []
+    comps = [None if c == "none" else tuple(None if x == "-" else x for x in c.split(";")) for c in d["comps"].split(",")] if d["comps"] else []
+    return {"generable": d["gen"] == "T", "mols": mols, "comps": comps}
+
+
+def impl_system(text, smw=None):
+    import traceback
+
+    import gbigsmiles
+    from gbigsmiles.stochastic import Stochastic
+
+    try:
+        with fw.time_limit(20):
+            s = gbigsmiles.System(text, system_molweight=smw)
+            gen = bool(s.generable)
+    except fw.Timeout:
+        return ("TIMEOUT", "timeout")
+    except Exception as e:  # noqa
+        frames = [(os.path.basename(f.filename), f.name) for f in traceback.extract_tb(e.__traceback__)]
+        if any(fn == "distribution.py" and name == "__init__" for fn, name in frames) and not ("does not start with" in str(e)):
+            return ("DISTPARAM", fw.exc_class(e))
+        return ("ERR", fw.exc_class(e))
+    mols = []
+    for m in s._molecules:
+        els = []
+        for e in m._elements:
+            if isinstance(e, Stochastic):
+                els.append(("stoch", e.left_terminal.generate_string(True), e.right_terminal.generate_string(True), [t.generate_string(True) for t in e.repeat_tokens],
+                            [t.generate_string(True) for t in e.end_tokens], len(e.bond_descriptors),
+                            None if e.distribution is None else FAMILY.get(type(e.distribution).__name__, type(e.distribution).__name__)))
+            else:
+                els.append(("tok", e.generate_string(True)))
+        mols.append(els)
+    comps = [None if m.mixture is None else (m.mixture.absolute_mass, m.mixture.relative_mass, m.mixture.system_mass) for m in s._molecules]
+    return {"generable": gen, "mols": mols, "comps": comps}
+
+
+def system_diff(m, i):
+    if isinstance(i, tuple) and i[0] == "DISTPARAM":
+        return []
+    if isinstance(m, tuple) and m[0] == "ERR" and m[1] == "Other":
+        return []      # non-finite mixture values: outside the bookkeeping model
+    if isinstance(m, tuple) or isinstance(i, tuple):
+        if isinstance(m, tuple) and isinstance(i, tuple):
+            return [] if (m[0] == i[0] == "ERR" and m[1] == i[1]) else [f"error class (model {m[1]}, implementation {i[1]})"]
+        return [f"error vs object (model {'error ' + m[1] if isinstance(m, tuple) else 'object'}, implementation {'error ' + i[1] if isinstance(i, tuple) else 'object'})"]
+    d = []
+    if m["generable"] != i["generable"]:
+        d.append(f"generable (model {m['generable']}, implementation {i['generable']})")
+    if [x["elems"] for x in m["mols"]] != i["mols"]:
+        d.append("molecules / elements")
+    if len(m["comps"]) != len(i["comps"]):
+        d.append("number of components")
+    else:
+        for k, (a, b) in enumerate(zip(m["comps"], i["comps"])):
+            if (a is None) != (b is None):
+                d.append(f"component {k}: mixture present")
+            elif a is not None:
+                for name, x, y in zip(("absolute", "relative", "system"), a, b):
+                    if (x is None) != (y is None) or (x is not None and not num_close(x, y, exact=False)):
+                        d.append(f"component {k}: {name} mass {x} vs {y}")
+    return d
